@@ -353,6 +353,11 @@ fn inject_fault(out: &mut std::io::Stdout, ctl: &mut Ctl, kind: &str, param: &st
             std::process::exit(1);
         }
         "garbage" => say(out, ctl, if param.is_empty() { "(foo bar)" } else { param }),
+        // an extra line (a stale or unsolicited general response) in front of the intact reply
+        "prefix" => {
+            say(out, ctl, param);
+            say(out, ctl, correct);
+        }
         "garbage-unbalanced" => {
             ctl.log("<", "(foo (bar");
             let _ = writeln!(out, "(foo (bar");
